@@ -40,6 +40,18 @@ def _cases(tier, rng):
         prog = progs.gen_map_program(rng, n_funcs=rng.randint(1, 3), allow_generator=(rng.random() < 0.5),
                                      sizes_pool=(1, 2, 3) if rng.random() < 0.7 else (2, 2, 3))
         yield {"prog": prog, "load_intermediate": rng.random() < 0.6, "rerun": rng.random() < 0.25}
+    # intermediates that are produced by the pipeline itself (generator functions without mapped inputs) and consumed
+    # downstream, with and without loading intermediates: such an array is a coordinate only if it may be loaded
+    want, tries = (16 if tier == "quick" else 160), 0
+    while want and tries < 20000:
+        tries += 1
+        prog = progs.gen_map_program(rng, n_funcs=rng.randint(2, 3), allow_generator=True,
+                                     sizes_pool=(2, 2, 3))
+        gens = {o for f in prog["funcs"] if f.get("spec") and not f["spec"]["inputs"] for o in f["outputs"]}
+        if not any(p_ in gens for f in prog["funcs"] if f.get("spec") and f["spec"]["inputs"] for p_ in f["params"]):
+            continue
+        want -= 1
+        yield {"prog": prog, "load_intermediate": want % 2 == 0, "rerun": False}
 
 
 def _root_coord_expectations(prog):
